@@ -393,6 +393,14 @@ def finish(prop, mod, tier, seed, outs, wall):
     os.makedirs(os.path.join(VERIF, "evidence"), exist_ok=True)
     json.dump(ev, open(os.path.join(VERIF, "evidence", prop + ".json"), "w"), indent=1, default=str)
 
+    # native replays may have left an unterminated progress line on stderr ("\r12 of 40 (30%)"): when both streams go
+    # to one terminal or pipe, the verdict lines must still start at the beginning of a line
+    try:
+        sys.stdout.flush()
+        sys.stderr.write("\n")
+        sys.stderr.flush()
+    except Exception:
+        pass
     for l in kf_lines:
         print(l)
     for i, (v, fn, suf) in enumerate(violations):
